@@ -1,3 +1,4 @@
+SERVED = ["C17", "C20"]
 HOOKS = {
     "guard": "PSYCHEC_VERIF",
     "enable": "harness/Makefile compiles /repo's sources with -DPSYCHEC_VERIF into /verif/.cache/build-<flavour>/; "
@@ -8,11 +9,11 @@ HOOKS = {
     "add_only": True,
 }
 ENGINES = [
-    {"name": "coq", "path": "coq/", "serves_properties": ["C20"],
+    {"name": "coq", "path": "coq/", "serves_properties": SERVED,
      "kind_free_text": "Coq 8.16.1 development: models, specifications, proofs; Properties_<id>.v hold the property theorems"},
-    {"name": "modelrun", "path": "ocaml/driver.ml", "serves_properties": ["C20"],
+    {"name": "modelrun", "path": "ocaml/driver.ml", "serves_properties": SERVED,
      "kind_free_text": "models extracted with ExtrOcamlBasic and run on the same requests as the implementation"},
-    {"name": "psyverif", "path": "harness/", "serves_properties": ["C20"],
+    {"name": "psyverif", "path": "harness/", "serves_properties": SERVED,
      "kind_free_text": "C++ correspondence harness compiled from /repo's working tree"},
 ]
 NOTES = ("All checks: bin/check <id>; exit 1 + VIOLATION line on a violation not listed in known_findings.json; "
@@ -29,5 +30,19 @@ CHECKS = {
         "note": "Trusted: Coq kernel; the hand transcription coq/C20Model.v (unordered_map as association list observed via lookup; "
                 "32-bit revision counter not modelled); extraction (ExtrOcamlBasic only) and the harness. Theorems closed under the global context.",
         "technique": "Coq refinement proof (invariant by induction over operation histories) + model/implementation correspondence",
+    },
+    "C17": {
+        "text": "Theorem C17_all_words: for every byte string of every length, every standard and every valuation of the 22 switches, "
+                "keyword recognition on or off, the kind computed by the decision programs regenerated from Keywords.cpp on this run equals "
+                "the kind of the oracle-table row spelled exactly like the word whose gate holds, else IdentifierToken, and no s[i] beyond the "
+                "word is read.  Proved by a symbolic checker over the trie (constraint store per path) whose soundness is proved once in Coq and "
+                "which the kernel evaluates (vm_compute) on the regenerated trie.  Rows where the pinned implementation's gate differs from the "
+                "cited oracle are listed as known findings; the proved table differs from the oracle at exactly those (still active) words. "
+                "Translation validation: extracted interpreter vs compiled lexer on ~290k (word, options) cases per run.",
+        "design_ref": "DESIGN.md section 6, C17 and Appendix A",
+        "note": "Trusted: Coq kernel incl. vm_compute; translate/kw.py (validated on every run against the compiled lexer); the oracle table KwSpec.v "
+                "(citations per row); extraction (ExtrOcamlBasic); harness. Modelled not verified: lexIdentifier passing exactly the word to recognize/translate. "
+                "Print Assumptions: closed under the global context.",
+        "technique": "Coq proof by verified symbolic checker (reflection, vm_compute) on a model regenerated from the source + translation validation",
     },
 }
